@@ -45,6 +45,8 @@ type pipeCase struct {
 	TolMs   uint  `json:"tolerance_ms,omitempty"`
 	EOFAt   []int `json:"transient_eof_at,omitempty"`
 	PauseMs []int `json:"pause_before_eof_ms,omitempty"`
+	// the reader returns its final chunk together with io.EOF (allowed by io.Reader)
+	EOFWithData bool `json:"eof_with_last_chunk,omitempty"`
 }
 
 // chunkReader hands out the input in chunks with pauses, then reports io.EOF.
@@ -56,6 +58,8 @@ type chunkReader struct {
 	off     int
 	eofAt   []int
 	pauseMs []int
+
+	eofWithData bool
 }
 
 func (cr *chunkReader) Read(p []byte) (int, error) {
@@ -88,6 +92,9 @@ func (cr *chunkReader) Read(p []byte) (int, error) {
 	copy(p, cr.data[:n])
 	cr.data = cr.data[n:]
 	cr.off += n
+	if cr.eofWithData && len(cr.data) == 0 {
+		return n, io.EOF
+	}
 	return n, nil
 }
 
@@ -184,7 +191,7 @@ func execC09(c *child.Ctx, k pipeCase, cj []byte, traces, pairs map[uint64]struc
 	leaked := ""
 	blockedStreak := 0
 	for si, input := range inputs {
-		cr := &chunkReader{data: input, max: k.Chunk, profile: k.ReaderPro, r: ref.NewRand(k.Seed*17 + 5 + uint64(si))}
+		cr := &chunkReader{data: input, max: k.Chunk, profile: k.ReaderPro, r: ref.NewRand(k.Seed*17 + 5 + uint64(si)), eofWithData: k.EOFWithData}
 		if si == 0 && k.TolMs > 0 {
 			cr.eofAt = append([]int(nil), k.EOFAt...)
 			cr.pauseMs = append([]int(nil), k.PauseMs...)
@@ -326,8 +333,11 @@ func monC09(c *child.Ctx, replay json.RawMessage) {
 				input = input[:12000]
 			}
 		}
+		if i%25 == 3 {
+			input = nil // a source that never yields a byte: the call must still return
+		}
 		nc := r.Range(1, 4)
-		k := pipeCase{Input: hexs(input), Chunk: []int{1, 2, 7, 64, 500, 5000}[r.Intn(6)], ReaderPro: r.Intn(4), Procs: procs[r.Intn(len(procs))],
+		k := pipeCase{EOFWithData: r.Chance(1, 4), Input: hexs(input), Chunk: []int{1, 2, 7, 64, 500, 5000}[r.Intn(6)], ReaderPro: r.Intn(4), Procs: procs[r.Intn(len(procs))],
 			Hook: hooks[r.Intn(len(hooks))], Seed: r.Uint64() >> 1}
 		real := 0
 		slow := false
@@ -357,13 +367,16 @@ func monC09(c *child.Ctx, replay json.RawMessage) {
 				if extra == 1 && r.Chance(1, 4) {
 					more = []byte("no frames in this source")
 				}
+				if r.Chance(1, 8) {
+					more = nil // an empty source between others
+				}
 				if len(more) > 3000 {
 					more = more[:3000]
 				}
 				k.More = append(k.More, hexs(more))
 			}
 		}
-		if i%8 == 5 && !slow {
+		if i%8 == 5 && !slow && len(input) > 4 {
 			// a live source: bursts separated by single transient end-of-file results
 			// (each within the tolerance), some of them far apart in time
 			k.TolMs = 60
